@@ -42,6 +42,9 @@ def _field_atoms(atoms, lib, body, pr, fidx_input):
 def run(ctx, rep):
     from rules import c11 as _c11
     _c11.get_pure(rep, ctx.lib)
+    # bindings made by --set are in scope for every option: the --set stage is outermost (shared with C03)
+    from rules import pipeline_rules as _P
+    _P.order(rep, ctx.lib)
     lib = ctx.lib
     tab = common.table("context_frame.toml")
     cadt = lib.adts.get("processor::Context")
